@@ -42,6 +42,9 @@ for d in sorted(os.listdir(S)):
                           "how": "tools/eval_seeded.sh: rsync /repo to /dev/shm scratch, patch -p1 < patch.diff, pytest there, demo.py against scratch and "
                                  "against /repo, ./check <ID> --tier quick --repo <scratch>; scratch removed"},
         }
+    if d in desc:
+        meta.setdefault("change", desc[d]["change"])
+        meta.setdefault("needs_to_manifest", desc[d]["needs_to_manifest"])
     meta.setdefault("round", 1)
     meta["initially_missed"] = d in INITIALLY_MISSED
     if d in results:
